@@ -61,11 +61,13 @@ func writePruneWatermark(walDir string, height types.Height) error {
 		}
 		return errors.Join(writeErr, closeErr)
 	}
+	verifPoint("wm-tmp-written")
 
 	if err := os.Rename(tmpPath, path); err != nil {
 		_ = os.Remove(tmpPath)
 		return fmt.Errorf("writePruneWatermark: replace watermark: %w", err)
 	}
+	verifPoint("wm-renamed")
 	if err := syncDir(walDir); err != nil {
 		return fmt.Errorf("writePruneWatermark: sync watermark directory: %w", err)
 	}
